@@ -91,6 +91,13 @@ class C14(ConnProp):
                 s, _ = reqgen.gen_bad_request(rng, 51200)
             else:
                 s, _ = reqgen.gen_stream(rng, 51200, p_bad=0.2, max_req=2)
+            if r < 0.55 and rng.random() < 0.08:
+                # repeated Content-Length: the last acceptable value decides in both parsers, also against the limit
+                m = rng.choice([b'PUT', b'PATCH'])
+                nb = rng.choice([0, 1, 3, 40])
+                s = m + b' /dup HTTP/1.1\r\n' + rng.choice([b'Content-Length: 60000\r\n', b'content-length: 51201\r\n', b'Content-Length: 7\r\n']) + \
+                    rng.choice([b'', b'X-Token: abc\r\n']) + b'Content-Length: %d\r\n\r\n' % nb + b'z' * nb
+                exact = True
             pair += 1
             out.append(([5, s], {'kind': 'oneshot', 'pair': pair, 'exact': exact}))
             out.append(([6, 51200, s, [[2, 1 << 20]]], {'kind': 'conn', 'pair': pair, 'exact': exact}))
